@@ -431,7 +431,7 @@ class RemoteWorker(Worker, metaclass=RemoteWorkerMeta):
         try:
             self._result = recv_msg(self._socket, comment='data: result')
             logger.debug('Result received')
-        except ConnectionClosedError:
+        except Exception: # connection closed, or a result that cannot be rebuilt on this side
             self._result = (False, None)
             logger.debug('Connection to the child has been closed before receiving the result')
         else:
